@@ -29,6 +29,10 @@ Rep1(L, R) ==
   \cup {Neg(e) : e \in L} \cup {Not(e) : e \in L} \cup {CastT(e, "int") : e \in L} \cup {IdxT(e, i) : e \in L, i \in R}
   \cup {InT(FALSE, e, <<v>>) : e \in L, v \in R}
 
+\* list elements / arguments / CASE branches after the first that START with a literal and go on (1 + b, 's'::int, 1 = b, -1 ...): the whole expression is the element
+LitStart == Ops1({One, Atom("'s'")}, {B})
+LaterElems == {InT(ng, A, <<C, e>>) : ng \in BOOLEAN, e \in LitStart} \cup {InT(FALSE, A, <<One, e, C>>) : e \in LitStart}
+              \cup {CallT("least", <<A, e>>) : e \in LitStart} \cup {CaseT(A, One, e) : e \in LitStart} \cup {Not(e) : e \in LitStart} \cup {Neg(e) : e \in LitStart}
 T1 == Ops1({A}, {B})
 T1x == Ops1(AtomsX, {B}) \cup Ops1({A}, AtomsX)
 T2 == Ops1(T1 \cup {A}, {C}) \cup Ops1({C}, T1 \cup {B})
@@ -52,7 +56,7 @@ Balanced(op, e, n) == IF n = 1 THEN e ELSE Bin(op, Balanced(op, e, n \div 2), Ba
 WideLeaves == {InT(FALSE, A, <<One, D>>), InT(TRUE, A, <<One>>), CallT("least", <<A, B>>), IdxT(A, One), CastT(A, "int"), CaseT(A, B, One), Neg(A), Bin("+", A, B), Bin("OR", A, B)}
 WideTrees == {Balanced(op, e, n) : op \in {"AND", "*"}, e \in WideLeaves, n \in {66, 130}}
              \cup {Bin("AND", Balanced("AND", InT(FALSE, A, <<One, D>>), n), Bin("OR", A, B)) : n \in {64, 65, 70}}        \* ... and a parenthesised operand after them
-Trees == Shapes3 \cup T1 \cup T1x \cup T2 \cup NegLit \cup (IF Depth >= 3 THEN R3 \cup WideTrees ELSE {}) \cup (IF Depth >= 4 THEN R4F(0) ELSE {})
+Trees == Shapes3 \cup T1 \cup T1x \cup T2 \cup NegLit \cup LaterElems \cup (IF Depth >= 3 THEN R3 \cup WideTrees ELSE {}) \cup (IF Depth >= 4 THEN R4F(0) ELSE {})
 
 VARIABLE t
 Init == t \in Trees
